@@ -46,7 +46,9 @@ func wsRun(r *Rng) string {
 
 func wsWord(r *Rng) string {
 	// (the last ones begin and end with characters that are NOT among the four whitespace characters the markers remove)
-	return r.Pick([]string{"w", "ab", "x1", "é", "a b", "p\tq", "l1\nl2", "-", "}", "#", "._.", "\u00a0x\u00a0", "\fz\v", "\u0085", "\u2003w\u2003", "\u00a0", "\v", "\u2028n\u3000"})
+	return r.Pick([]string{"w", "ab", "x1", "é", "a b", "p\tq", "l1\nl2", "-", "}", "#", "._.", "\u00a0x\u00a0", "\fz\v", "\u0085", "\u2003w\u2003", "\u00a0", "\v", "\u2028n\u3000",
+		// bytes that are no valid UTF-8 (a Latin-1 template, a truncated sequence): copied as they are, trimmed or not
+		"caf\xe9", "\xff", "\xc3", "a\xed\xa0\x80b", "\xe2\x82", "\x80x\xfe"})
 }
 
 func wsGenText(r *Rng) *wsNode {
